@@ -142,19 +142,19 @@ macro_rules! c14_tiling_harness {
 // @funcs Lexer::next_token, Lexer::commit_token, SpanManager::intern_span
 c14_tiling_harness!(c14_tiling_1, 1, 7);
 
-// @harness id=c14_tiling_2 props=C14,C16,C01 tier=thorough cap=3600
+// @harness id=c14_tiling_2 props=C14,C16,C01 tier=attempt cap=3600
 // @desc Lexer::next_token repeated to the end on every byte string of length 2: the tokens (whitespace and comments included) tile the input exactly from byte 0 to an end-of-file token at the end, every token is non-empty, and a failure is one error whose span lies inside the input with start <= end; no panic (slice indexing, from_utf8().unwrap(), span assertions) for any bytes
 // @bound all 65 536 two-byte inputs in one query (every pair of token starts, invalid UTF-8 included)
 // @funcs Lexer::next_token, Lexer::lex_operator, Lexer::lex_ident, Lexer::lex_number, Lexer::lex_quoted_string, Lexer::lex_verbatim_string, Lexer::lex_text_block, Lexer::lex_single_line_comment, Lexer::lex_multi_line_comment, Lexer::eat_cont_any_char, Lexer::commit_token, SpanManager::intern_span
 c14_tiling_harness!(c14_tiling_2, 2, 8);
 
-// @harness id=c14_tiling_3 props=C14,C16 tier=thorough cap=5400 mem=40
+// @harness id=c14_tiling_3 props=C14,C16 tier=attempt cap=5400 mem=40
 // @desc as c14_tiling_2 for every byte string of length 3 (adds |||, 3-byte UTF-8 sequences, two-byte operators followed by another token)
 // @bound all 2^24 three-byte inputs in one query
 // @funcs Lexer::next_token
 c14_tiling_harness!(c14_tiling_3, 3, 9);
 
-// @harness id=c14_tiling_4 props=C14,C16 tier=thorough cap=3600
+// @harness id=c14_tiling_4 props=C14,C16 tier=attempt cap=3600
 // @desc as c14_tiling_2 for every byte string of length 4
 // @bound all 2^32 four-byte inputs in one query
 // @funcs Lexer::next_token
